@@ -563,3 +563,26 @@ def replay(ctx, rec):
         if v != "accept":
             ctx.violation(rec["key"], {"observed": new[pos - 1] if 0 < pos <= len(new) else {},
                                        "verdict": {"verdict": v, "pos": pos, "clause": clause}})
+
+
+# ---- extra stage (maintainer): integration sessions (spec/Session.tla) replayed through the text
+# pipeline: from_string -> admitted iff balanced -> rates -> Euler step -> totals conserved -> split.
+_run_conservation = run
+
+
+def run(ctx):  # noqa: F811
+    _run_conservation(ctx)
+    import session_stage
+    session_stage.run_stage(ctx)
+
+
+_replay_conservation = replay
+
+
+def replay(ctx, rec):  # noqa: F811
+    if rec.get("kind") == "session":
+        import session_stage
+        for i, what, obs, exp in session_stage.replay_session(rec["case"]):
+            ctx.violation({"fn": "session:" + what}, {"step": i, "observed": obs, "expected": exp})
+    else:
+        _replay_conservation(ctx, rec)
